@@ -16,10 +16,10 @@ PROPS_ = ["FailedMutatorNoChange", "CopyOpsPure", "SpanNeverShrinks"]
 SIZES = {
     "quick": dict(full=dict(NNames=4, MaxSlots=5, NVariants=3, Depth=5),      # C12's stated universe, design level only
                   emit=dict(NNames=3, MaxSlots=3, NVariants=3, Depth=3),      # every transition replayed
-                  edit=dict(N=3, K=1), rand=3000, hist=400),
+                  edit=dict(N=3, K=1), rand=3000, hist=400, sim=300),
     "thorough": dict(full=dict(NNames=4, MaxSlots=5, NVariants=4, Depth=5),
                      emit=dict(NNames=4, MaxSlots=4, NVariants=3, Depth=3),
-                     edit=dict(N=3, K=2), rand=60000, hist=8000),
+                     edit=dict(N=3, K=2), rand=60000, hist=8000, sim=6000),
 }
 
 
@@ -69,6 +69,13 @@ def run_part(prop, tier, res, findings, work, map_ops, edit_ops, relevant, plans
         events += G.replay(rv, [("ms", "ascii")], len(events))
     if map_ops:
         events += G.map_histories(sz["hist"], common.SEED, len(events))
+        # spec -> code along behaviours: random walks of the TLC model (full bounds) replayed on live Textgrid objects
+        sim_cfg = _cfg(work, "tg_sim", dict(sz["full"], Depth=6), map_ops, "map", False)
+        beh, rs = common.simulate_behaviours("MC_Tg", sim_cfg, work, sz["sim"], 13)
+        res.transitions += rs["generated"]
+        sim_events, sdrift = G.sim_histories(beh, len(events))
+        events += sim_events
+        res.notes.setdefault("tg", {}).update(dict(simulated_behaviours=len(beh), simulated_steps=len(sim_events), simulated_drift=sdrift))
     verdicts, nval, cmd = common.validate_traces("Trace_Tg", events, work, chunk=10000)
     res.cmds.append(cmd)
     res.traces += nval
